@@ -101,7 +101,8 @@ def build(ctx, spec, name=None, base_executor=None):
                         exponent=L.get("exponent", 2.0), max_sleep=L.get("max_sleep", 120),
                         exception_base=EXC_BASES[L.get("base", "Exception")])
         elif t == "poll":
-            pf = b.fns["poll%d" % k] = Recorded("poll%d" % k, make_poll_fn(L.get("mode", "first"), k, b))
+            pf = b.fns["poll%d" % k] = Recorded("poll%d" % k, make_poll_fn(L.get("mode", "first"), k, b),
+                                                keep_args=spec.get("keep_args", True))
             cur = _with(cur, "poll", pf, None, L.get("interval", 0.002))
         elif t == "throttle":
             c = L.get("count", 2)
